@@ -47,8 +47,23 @@ func main() { Main(run) }
 
 // ---------------------------------------------------------------- printing
 
-// BZ prints a byte string.
-func BZ(b []byte) string { return Bytes(b) }
+// BZ prints a byte string as the compact literal `(B len [w0; w1; ...]%uint63)` of
+// Base/BytesPack.v (7 little-endian bytes per primitive integer): a `list Z`
+// literal is about ten times slower to type-check.
+func BZ(b []byte) string {
+	ws := []string{}
+	for i := 0; i < len(b); i += 7 {
+		var w uint64
+		for k := 6; k >= 0; k-- {
+			w <<= 8
+			if i+k < len(b) {
+				w |= uint64(b[i+k])
+			}
+		}
+		ws = append(ws, fmt.Sprint(w))
+	}
+	return fmt.Sprintf("(B %d [%s]%%uint63)", len(b), strings.Join(ws, "; "))
+}
 
 func optBytes(ok bool, b []byte) string {
 	if !ok {
